@@ -4,7 +4,7 @@
 From Coq Require Import List NArith ZArith Bool Arith Lia.
 From Common Require Import Bytes Outcome.
 From Gen Require Import C12.
-From C12 Require Import Codec Util Model Proofs_hmtx.
+From C12 Require Import Codec Util Model Model2 Model3 Proofs_hmtx Proofs_tables Proofs_derived.
 Import ListNotations.
 
 Local Open Scope Z_scope.
@@ -90,4 +90,92 @@ Example ex_decode_err :
   M_hmtx_decode (hhea_bytes ex_info 1 0 0 0 0 0 2) (Some [0; 1; 0; 2; 0]%N) = Err /\
   M_hmtx_decode (hhea_bytes ex_info 1 0 0 0 0 0 2) (Some [0; 1; 0; 2]%N) = Err /\
   is_ok (M_hmtx_decode (hhea_bytes ex_info 1 0 0 0 0 0 1) (Some [0; 1; 0; 2; 0; 3]%N)) = true.
+Proof. vm_compute. repeat split; reflexivity. Qed.
+
+(* ---------- head ---------- *)
+Definition ex_head : head_info :=
+  mkHead 65536 true true false 2048 (mkTime 1136239445 0) (mkTime zero_unix 0)
+         (mkRect (-50) (-200) 1200 900) true false false true false 7 1.
+
+Example ex_head_nf_dec :
+  (hd_revision ex_head <? 4294967296)%N = true /\ in_i64 (t_sec (hd_created ex_head)) = true /\
+  (t_sec (hd_created ex_head) =? head_zeroTime) = false /\ (t_sec (hd_modified ex_head) =? head_zeroTime) = false.
+Proof. vm_compute. repeat split; reflexivity. Qed.
+
+Example ex_head_roundtrip : M_head_decode (M_head_encode ex_head) = Ok ex_head.
+Proof. vm_compute. reflexivity. Qed.
+
+Example ex_head_rejects :
+  M_head_decode (firstn 53 (M_head_encode ex_head)) = Err /\
+  M_head_decode (1%N :: tl (M_head_encode ex_head)) = Err.
+Proof. vm_compute. split; reflexivity. Qed.
+
+(* ---------- maxp ---------- *)
+Example ex_maxp :
+  M_maxp_encode (mkMaxp 65535 None) = Ok [0; 0; 80; 0; 255; 255]%N /\
+  M_maxp_decode [0; 0; 80; 0; 255; 255]%N = Ok (mkMaxp 65535 None) /\
+  M_maxp_encode (mkMaxp 65536 None) = Panic /\ M_maxp_encode (mkMaxp 0 None) = Panic /\
+  M_maxp_decode [0; 0; 80; 0; 0; 0]%N = Err /\
+  M_maxp_decode [0; 1; 0; 0; 0; 9]%N = Err.
+Proof. vm_compute. repeat split; reflexivity. Qed.
+
+(* ---------- post ---------- *)
+Example ex_post :
+  M_post_decode_header (M_post_encode_header 196608 (mkPost (-786432) (-100) 50 true)) =
+    Ok (PostOk 196608 (mkPost (-786432) (-100) 50 true)).
+Proof. vm_compute. reflexivity. Qed.
+
+(* ---------- OS/2 ---------- *)
+Definition ex_os2 : os2_info :=
+  mkOs2 700 5 true true false true 32 65535 800 (-200) 900 250 90 700 500 512
+        [1; 2; 3; 4; 5; 6; 7; 8; -9; 10] 2048 [2; 0; 5; 3; 0; 0; 0; 0; 0; 1]%N [71; 79; 32; 32]%N
+        [1; 33554432; 0; 0]%N 9223372041149743103%N 2 true false.
+
+Example ex_os2_roundtrip : M_os2_decode (M_os2_encode ex_os2) = Ok ex_os2.
+Proof. vm_compute. reflexivity. Qed.
+
+(* outside the normal form: regular together with bold is not expressible *)
+Example os2_regular_bold_refuted :
+  let i := mkOs2 400 5 true false true false 0 0 0 0 0 0 0 0 0 0 [0;0;0;0;0;0;0;0;0;0] 0
+                 [0;0;0;0;0;0;0;0;0;0]%N [32;32;32;32]%N [0;0;0;0]%N 0 0 false false in
+  M_os2_decode (M_os2_encode i) <> Ok i.
+Proof. vm_compute. congruence. Qed.
+
+(* version gating: the same fsType / fsSelection bytes under version 2 and 4 *)
+Example ex_os2_version_gating :
+  let t4 := M_os2_encode ex_os2 in
+  let t2 := 0%N :: 2%N :: skipn 2 t4 in
+  match M_os2_decode t4, M_os2_decode t2 with
+  | Ok a, Ok b => os_oblique a = true /\ os_oblique b = false /\ os_nosub a = true /\ os_nosub b = false
+  | _, _ => False
+  end.
+Proof. vm_compute. repeat split; reflexivity. Qed.
+
+(* ---------- derived fields ---------- *)
+Example ex_derived :
+  M_derived ex_boxes ex_widths (Cmap4 [65; 32; 8364; 97]) =
+    Ok (mkDerived 6 (mkRect (-20) (-10) 610 712) 600 (-20) (-10) 610 3 570 32 8364 712 10 false).
+Proof. vm_compute. reflexivity. Qed.
+
+Example ex_derived_hyps :
+  forallb (fun r => (llx r <=? urx r) && (lly r <=? ury r)) ex_boxes = true /\
+  forallb in_i16 (map rsb_of (nonempty_zip ex_boxes (combine ex_widths (map llx ex_boxes)))) = true /\
+  length ex_boxes = length ex_widths.
+Proof. vm_compute. repeat split; reflexivity. Qed.
+
+Example ex_fixed_pitch :
+  M_fixedpitch [600; 0; 600; 600] = true /\ M_fixedpitch [600; 0; 601] = false /\
+  M_fixedpitch [] = false /\ M_fixedpitch [0; 0] = true.
+Proof. vm_compute. repeat split; reflexivity. Qed.
+
+Example ex_first_last_clamped :
+  M_firstlast (Some (M_coderange12 [128512; 65; 70000])) = (65, 65535) /\
+  M_firstlast (Some (M_coderange12 [128512; 70000])) = (65535, 65535).
+Proof. vm_compute. split; reflexivity. Qed.
+
+(* ---------- version ---------- *)
+Example ex_version_round :
+  M_version_round 65537 = 65536%N /\ M_version_round 98304 = 98304%N /\
+  M_version_round 4096 = 4063%N /\ version_milli_string 4096 = 62%N /\ version_milli_half_up 4096 = 63%N /\
+  M_version_round 12288 = 12321%N /\ version_milli_string 12288 = 188%N.
 Proof. vm_compute. repeat split; reflexivity. Qed.
